@@ -38,6 +38,12 @@ def expectedGuards : List String :=
    "objectGoSlice.grow: clears the re-exposed tail",
    "objectGoSlice.shrink: clears the cut-off tail",
    "objectExportCtx.putTyped: carries an earlier untyped entry into the per-type table",
+   "objectGoArrayReflect._putIdx: re-attaches the wrapper when the conversion fails",
+   "objectGoArrayReflect._putIdx: drops the cache entry after a successful store",
+   "objectGoReflect._put: detaches the cached field wrapper",
+   "objectGoReflect._put: re-attaches the wrapper when the conversion fails",
+   "objectGoReflect._put: drops the cache entry after a successful store",
+   "objectGoArrayReflect.swap: moves the cached wrappers with the elements",
    "baseObject.export: caches before exporting the children",
    "arrayObject.export: caches before exporting the children"]
 
